@@ -125,7 +125,7 @@ func (e *Engine) RunRoot(fn *ssa.Function) (err error) {
 		if e.staticOnly(fr.contract) {
 			return nil
 		}
-		if fr.contract.Flags["frame_only"] != "" && fr.contract.Flags["never_writes"] == "" {
+		if e.frameOnlyApplies(fr.contract) && fr.contract.Flags["never_writes"] == "" {
 			return nil
 		}
 	}
@@ -174,7 +174,7 @@ func (e *Engine) RunRoot(fn *ssa.Function) (err error) {
 			// a definite answer of the static analysis: record it as refuted
 			e.obligations[len(e.obligations)-1].Result = &SolverResult{Status: "sat", Solver: "static-frame-analysis", Output: why}
 		}
-		if fr.contract.Flags["frame_only"] != "" {
+		if e.frameOnlyApplies(fr.contract) {
 			return nil
 		}
 	}
@@ -604,6 +604,7 @@ func (e *Engine) transfer(s *State, fr *Frame, to *ssa.BasicBlock, in ssa.Instru
 		lc.fnKey = shortKey(funcKey(fr.fn))
 		e.checkInvariants(s, fr, lc, "invariant.init", in.Pos())
 		e.havocLoop(s, fr, li)
+		e.havocDeclaredLoopGhosts(s, fr, li) // "loop N modifies g" (explicit declaration); havocLoop covers ghosts named in an invariant
 		e.assumeInvariants(s, fr, lc)
 		fr.loops = append(fr.loops, lc)
 		return nil, false
@@ -632,7 +633,9 @@ func (e *Engine) checkInvariants(s *State, fr *Frame, lc *loopCtx, kind string, 
 			name += ":" + c.Tag
 		}
 		s.addObligation(kind, name, c.Tag, pos, t, c.Src)
-		s.assume(t)
+		if !e.leanInvariants(fr) {
+			s.assume(t)
+		}
 	}
 	if lc.inv.Decreases != nil {
 		t, err := e.evalExprTerm(s, fr, lc.inv.Decreases.Expr, nil, nil)
@@ -786,6 +789,7 @@ func (e *Engine) havocWrites(s *State, fr *Frame, w *WriteSet, hint string) {
 			}
 		}
 	}
+	e.havocBufCells(s, fr, w, hint)
 	// deterministic order (map iteration order would change the numbering of fresh symbols from run to run,
 	// and with it the solvers' behaviour on quantified queries)
 	cellList := make([]*ssa.Alloc, 0, len(w.Cells))
@@ -904,6 +908,7 @@ func (e *Engine) execAlloc(s *State, fr *Frame, x *ssa.Alloc) {
 	if err := s.store(p, zv); err != nil {
 		e.bail("alloc: %v", err)
 	}
+	e.bufAllocHook(s, ref, elem)
 	s.set(fr, x, p)
 }
 
